@@ -185,7 +185,7 @@ class RefRun:
             self._op(idx, st)
         elif k == "inplace":
             self._inplace(idx, st)
-        elif k in ("backward", "clear", "drop", "null_grad", "fail"):
+        elif k in ("backward", "clear", "drop", "null_grad", "fail", "guard"):
             pass
         else:  # pragma: no cover
             raise HarnessError(f"unknown stmt {k}")
@@ -405,6 +405,8 @@ class MgRun:
             env[st["h"]].null_grad()
         elif k == "drop":
             env.pop(st["h"], None)
+        elif k == "guard":
+            (mg.turn_memory_guarding_on if st["on"] else mg.turn_memory_guarding_off)()
         else:  # pragma: no cover
             raise HarnessError(k)
 
